@@ -9,6 +9,7 @@ Operation vocabulary (JSON lists; h = handle name, p = project index):
   ["init", h]
   ["dset", h, k, v] ["ddel", h, k] ["dclear", h] ["dreset", h, mapping]
   ["put", h, relpath, text]     job.init(); write a file below the job directory
+  ["putlink", h, name, target, text]   job.init(); symlink name -> ABSOLUTE path of the job's file `target` (content text)
   ["clear", h] ["reset", h] ["remove", h]
   ["spset", h, k, v] ["spdel", h, k] ["spnest", h, k, k2, v] ["spassign", h, sp]
   ["update", h, mapping, overwrite]
@@ -134,6 +135,12 @@ class RealWorld:
             H[op[1]].doc.clear()
         elif k == "dreset":
             H[op[1]].doc = op[2]
+        elif k == "putlink":
+            # a symbolic link inside the job directory with an ABSOLUTE target inside the same directory
+            # (e.g. latest.dat -> <job>/run_0003.dat); op[4] is the content of the target
+            j = H[op[1]]
+            j.init()
+            os.symlink(j.fn(op[3]), j.fn(op[2]))
         elif k == "put":
             j = H[op[1]]
             j.init()
@@ -234,6 +241,11 @@ def read_job_dir(wd):
         for fn in sorted(fns):
             full = os.path.join(dp, fn)
             rel = os.path.relpath(full, wd)
+            if os.path.islink(full) and not os.path.realpath(full).startswith(os.path.realpath(wd) + os.sep):
+                # a job's data must live in the job's own directory
+                files[rel] = "<symbolic link leaving the job directory: %s>" % os.path.relpath(
+                    os.path.realpath(full), os.path.dirname(os.path.realpath(wd)))
+                continue
             with open(full, "rb") as f:
                 data = f.read()
             if rel == SP_FILE:
@@ -427,6 +439,9 @@ class PlainModel:
             return "ok"
         if k == "put":
             self._ensure(op[1])["files"][op[2]] = op[3]
+            return "ok"
+        if k == "putlink":
+            self._ensure(op[1])["files"][op[2]] = op[4]
             return "ok"
         if k == "clear":
             j = self._job(op[1])
@@ -694,6 +709,8 @@ def model_op(op, cached=None):
         return "dreset %s %s" % (op[1], enc_val(op[2]))
     if k == "put":
         return "put %s %s %s" % (op[1], S(op[2]), S(op[3]))
+    if k == "putlink":  # for the model a link is the content it resolves to
+        return "put %s %s %s" % (op[1], S(op[2]), S(op[4]))
     if k == "spset":
         return "spset %s %s %s" % (op[1], S(op[2]), enc_val(op[3]))
     if k == "spdel":
@@ -825,7 +842,7 @@ def lockstep(ops, ctx, nproj=2, check_handles=True, stop_at_first=True):
                     for name, hd in pm.h.items():
                         if name != op[1] and (hd["p"], ref_id(hd["sp"])) == old:
                             stale.add(name)
-            if k in ("init", "dset", "dreset", "dclear", "put", "reset") and real.startswith("ok"):
+            if k in ("init", "dset", "dreset", "dclear", "put", "putlink", "reset") and real.startswith("ok"):
                 if op[1] in stale and op[1] in doc_touched:
                     doc_tainted.add(op[1])
                 stale.discard(op[1])
